@@ -1,10 +1,13 @@
 //! UDP, TCP (+ options)
 use super::alpha::*;
-use super::{caps, Rt};
+use super::{Ck, Proto, Rt, CK_ALL};
 use crate::core::Tier;
 use smoltcp::wire::*;
 
 pub type Addrs = (IpAddress, IpAddress);
+/// pseudo-header addresses + checksum-capability mode
+pub type AddrsCk = (IpAddress, IpAddress, Ck);
+
 pub fn addr_pairs(tier: Tier) -> Vec<Addrs> {
     let a4 = v4s();
     let a6 = v6s();
@@ -27,13 +30,15 @@ pub struct Udp;
 impl Rt for Udp {
     const NAME: &'static str = "UdpRepr";
     type R<'x> = (UdpRepr, &'x [u8]);
-    type Ctx = Addrs;
+    type Ctx = AddrsCk;
     fn nchunks(tier: Tier) -> usize {
-        addr_pairs(tier).len() + if tier == Tier::Thorough { 2 } else { 0 }
+        (addr_pairs(tier).len() + if tier == Tier::Thorough { 2 } else { 0 }) * CK_ALL.len()
     }
-    fn chunk(tier: Tier, i: usize) -> Vec<(Self::R<'static>, Addrs)> {
+    fn chunk(tier: Tier, i: usize) -> Vec<(Self::R<'static>, AddrsCk)> {
+        let m = CK_ALL[i % CK_ALL.len()];
+        let i = i / CK_ALL.len();
         let pairs = addr_pairs(tier);
-        let mut v = vec![];
+        let mut v: Vec<(Self::R<'static>, Addrs)> = vec![];
         if i < pairs.len() {
             for sp in pick(tier, &[1u16, 0, 65535, 80], 3) {
                 for dp in pick(tier, &[80u16, 65535, 1], 2) {
@@ -54,21 +59,39 @@ impl Rt for Udp {
                 v.push(((UdpRepr { src_port: 1, dst_port: 80 }, &sw[2 * x..2 * x + 2]), c));
             }
         }
-        v
+        v.into_iter().map(|(r, c)| (r, (c.0, c.1, m))).collect()
     }
-    fn blen(r: &Self::R<'_>, _: &Addrs) -> usize {
+    fn blen(r: &Self::R<'_>, _: &AddrsCk) -> usize {
         r.0.header_len() + r.1.len()
     }
-    fn emit(r: &Self::R<'_>, c: &Addrs, buf: &mut [u8]) {
+    fn emit(r: &Self::R<'_>, c: &AddrsCk, buf: &mut [u8]) {
         let pl = r.1;
-        r.0.emit(&mut UdpPacket::new_unchecked(buf), &c.0, &c.1, pl.len(), |p| p.copy_from_slice(pl), &caps(true))
+        let mut p = UdpPacket::new_unchecked(buf);
+        r.0.emit(&mut p, &c.0, &c.1, pl.len(), |p| p.copy_from_slice(pl), &c.2.emit_caps(Proto::Udp));
+        if c.2.device_fills() {
+            p.fill_checksum(&c.0, &c.1);
+        }
     }
-    fn parse(b: &[u8], c: &Addrs, s: bool, k: &mut dyn FnMut(Option<&Self::R<'_>>)) {
-        let r = UdpPacket::new_checked(b).ok().and_then(|p| UdpRepr::parse(&p, &c.0, &c.1, &caps(s)).ok().map(|r| (r, p.payload())));
+    fn parse(b: &[u8], c: &AddrsCk, s: bool, k: &mut dyn FnMut(Option<&Self::R<'_>>)) {
+        let r = UdpPacket::new_checked(b).ok().and_then(|p| UdpRepr::parse(&p, &c.0, &c.1, &c.2.parse_caps(Proto::Udp, s)).ok().map(|r| (r, p.payload())));
         k(r.as_ref())
     }
-    fn same(a: &Self::R<'_>, b: &Self::R<'_>, _: &Addrs) -> bool {
+    fn same(a: &Self::R<'_>, b: &Self::R<'_>, _: &AddrsCk) -> bool {
         a.0 == b.0 && a.1 == b.1
+    }
+    fn base_ctx(c: &AddrsCk) -> Option<AddrsCk> {
+        (c.2 != Ck::Default).then_some((c.0, c.1, Ck::Default))
+    }
+    fn ctx_tag(c: &AddrsCk) -> String {
+        // the pseudo-header family matters for UDP (zero checksum rules differ)
+        if c.2 == Ck::Default {
+            String::new()
+        } else {
+            format!("{}-over-{}", c.2.name(), if matches!(c.1, IpAddress::Ipv4(_)) { "ipv4" } else { "ipv6" })
+        }
+    }
+    fn tx_off(c: &AddrsCk) -> bool {
+        c.2.tx_off()
     }
     fn cksum(_: &Self::R<'_>) -> Option<std::ops::Range<usize>> {
         Some(6..8)
@@ -80,7 +103,7 @@ impl Rt for Udp {
         }
     }
     fn domain_doc() -> &'static str {
-        "(repr, payload) per pseudo-header pair (2 IPv4 pairs incl. broadcast/unspecified, 2 IPv6 pairs): src_port {0,1,80,65535} x dst_port {1,80,65535} (0 is not a destination) x payload length {0,1,2,3,1472} x 2 payload patterns; thorough adds all 65536 two-byte payloads for ports (1,80) over one IPv4 and one IPv6 pair (every checksum value)"
+        "(repr, payload) per pseudo-header pair (2 IPv4 pairs incl. broadcast/unspecified, 2 IPv6 pairs): src_port {0,1,80,65535} x dst_port {1,80,65535} (0 is not a destination) x payload length {0,1,2,3,1472} x 2 payload patterns; thorough adds all 65536 two-byte payloads for ports (1,80) over one IPv4 and one IPv6 pair (every checksum value); x checksum capabilities of this protocol {default; None; Tx; Rx with the harness filling the checksum as the device would; emit default / parse None; emit Rx / parse Tx}, each emitted and parsed under that configuration"
     }
 }
 
@@ -111,11 +134,13 @@ const SACKS: [[Option<(u32, u32)>; 3]; 4] = [
 impl Rt for Tcp {
     const NAME: &'static str = "TcpRepr";
     type R<'x> = TcpRepr<'x>;
-    type Ctx = Addrs;
+    type Ctx = AddrsCk;
     fn nchunks(tier: Tier) -> usize {
-        pick(tier, &addr_pairs(Tier::Thorough), 2).len().min(2) * tcp_ports(tier).len() * CONTROLS.len()
+        pick(tier, &addr_pairs(Tier::Thorough), 2).len().min(2) * tcp_ports(tier).len() * CONTROLS.len() * CK_ALL.len()
     }
-    fn chunk(tier: Tier, i: usize) -> Vec<(TcpRepr<'static>, Addrs)> {
+    fn chunk(tier: Tier, i: usize) -> Vec<(TcpRepr<'static>, AddrsCk)> {
+        let m = CK_ALL[i % CK_ALL.len()];
+        let i = i / CK_ALL.len();
         let ports = tcp_ports(tier);
         let ctl = CONTROLS[i % 5];
         let (sp, dp) = ports[(i / 5) % ports.len()];
@@ -154,7 +179,7 @@ impl Rt for Tcp {
                                             if r.header_len() > 60 {
                                                 continue;
                                             }
-                                            v.push((r, c));
+                                            v.push((r, (c.0, c.1, m)));
                                         }
                                     }
                                 }
@@ -166,20 +191,33 @@ impl Rt for Tcp {
         }
         v
     }
-    fn blen(r: &TcpRepr, _: &Addrs) -> usize {
+    fn blen(r: &TcpRepr, _: &AddrsCk) -> usize {
         r.buffer_len()
     }
-    fn emit(r: &TcpRepr, c: &Addrs, buf: &mut [u8]) {
-        r.emit(&mut TcpPacket::new_unchecked(buf), &c.0, &c.1, &caps(true))
+    fn emit(r: &TcpRepr, c: &AddrsCk, buf: &mut [u8]) {
+        let mut p = TcpPacket::new_unchecked(buf);
+        r.emit(&mut p, &c.0, &c.1, &c.2.emit_caps(Proto::Tcp));
+        if c.2.device_fills() {
+            p.fill_checksum(&c.0, &c.1);
+        }
     }
-    fn parse(b: &[u8], c: &Addrs, s: bool, k: &mut dyn FnMut(Option<&TcpRepr<'_>>)) {
-        let r = TcpPacket::new_checked(b).ok().and_then(|p| TcpRepr::parse(&p, &c.0, &c.1, &caps(s)).ok());
+    fn parse(b: &[u8], c: &AddrsCk, s: bool, k: &mut dyn FnMut(Option<&TcpRepr<'_>>)) {
+        let r = TcpPacket::new_checked(b).ok().and_then(|p| TcpRepr::parse(&p, &c.0, &c.1, &c.2.parse_caps(Proto::Tcp, s)).ok());
         k(r.as_ref())
     }
-    fn same(a: &TcpRepr, b: &TcpRepr, _: &Addrs) -> bool {
+    fn same(a: &TcpRepr, b: &TcpRepr, _: &AddrsCk) -> bool {
         a == b
     }
-    fn legal(r: &TcpRepr, _: &Addrs) -> bool {
+    fn base_ctx(c: &AddrsCk) -> Option<AddrsCk> {
+        (c.2 != Ck::Default).then_some((c.0, c.1, Ck::Default))
+    }
+    fn ctx_tag(c: &AddrsCk) -> String {
+        c.2.name().into()
+    }
+    fn tx_off(c: &AddrsCk) -> bool {
+        c.2.tx_off()
+    }
+    fn legal(r: &TcpRepr, _: &AddrsCk) -> bool {
         // what the protocol permits: at most 40 option bytes; SACK blocks only together with
         // an ACK and never next to SACK-permitted (a SYN option); `emit` leaves the blocks
         // out otherwise, by design
@@ -196,7 +234,7 @@ impl Rt for Tcp {
         }
     }
     fn domain_doc() -> &'static str {
-        "per pseudo-header pair (one IPv4, one IPv6): ports {1,80,65535}^2 x control {None,Psh,Syn,Fin,Rst} x seq {0,1,2^31-1,2^31,2^32-1} x ack {None,0,2^31,2^32-1} x window {0,1,65535} x window_scale {None,0,14} x mss {None,0,536,65535} x sack_permitted x SACK blocks {none, 1, 2 (prefix of the array), 3} (only with an ACK and without SACK-permitted) x timestamp {None,(0,0),(2^32-1,1)} x payload length {0,1,2,3,1460}, minus combinations whose options exceed 40 bytes"
+        "per pseudo-header pair (one IPv4, one IPv6): ports {1,80,65535}^2 x control {None,Psh,Syn,Fin,Rst} x seq {0,1,2^31-1,2^31,2^32-1} x ack {None,0,2^31,2^32-1} x window {0,1,65535} x window_scale {None,0,14} x mss {None,0,536,65535} x sack_permitted x SACK blocks {none, 1, 2 (prefix of the array), 3} (only with an ACK and without SACK-permitted) x timestamp {None,(0,0),(2^32-1,1)} x payload length {0,1,2,3,1460}, minus combinations whose options exceed 40 bytes; x checksum capabilities of this protocol {default; None; Tx; Rx with the harness filling the checksum as the device would; emit default / parse None; emit Rx / parse Tx}, each emitted and parsed under that configuration"
     }
 }
 
@@ -265,6 +303,7 @@ impl Rt for TcpOpt {
 /// Values outside the enumerated domain (see `super::probe`).
 pub fn observations() -> Vec<serde_json::Value> {
     let c = addr_pairs(Tier::Quick)[0];
+    let c = (c.0, c.1, Ck::Default);
     let base = TcpRepr {
         src_port: 1,
         dst_port: 80,
